@@ -155,6 +155,18 @@ func runBundle(base string, c *mCase) (obs *mObs) {
 			}
 		}
 	}
+	for _, pk := range c.Pkgs {
+		if pk.Local == "terraform-sources.json" {
+			continue
+		}
+		p := filepath.Join(root, pk.Local, "sub")
+		if back, berr := bundle.SourceForLocalPath(p); berr == nil {
+			// if the path is attributed to a package, going forward again must return it
+			if fwd, ferr := bundle.LocalPathForSource(back); ferr != nil || fwd != filepath.Clean(p) {
+				obs.NotInverting++
+			}
+		}
+	}
 	for _, r := range c.Regs {
 		rs, perr := sourceaddrs.ParseRegistrySource(r.Source)
 		v, verr := versions.ParseVersion(r.Version)
